@@ -32,7 +32,7 @@ def _case(draw, shard, nshards, all_partitions):
     cfg["ppqn"] = None      # Bar / sequences_split_bars lay bars out with the library resolution
     route = draw(st.sampled_from(["split", "direct", "raw"]))
     piece = draw(T.piece(cfg, allow_crossing=(route == "split" and cfg["note_values"] is None), noise=False,
-                         min_bars=draw(st.sampled_from([1, 2, 2, 3, 4]))))
+                         min_bars=draw(st.sampled_from([1, 2, 2, 3, 4])), spread=(route == "raw")))
     if route == "raw":
         # chunks are cut out of the raw tracks with Sequence.split (no Bar objects, so a chunk does not start with its
         # own signature event and may carry a stray mid-bar signature message, which tokenise ignores)
